@@ -10,18 +10,18 @@ Open Scope string_scope.
 
 (* ---- the harvester --------------------------------------------------------------------- *)
 
-(* (M) harvest = the declaration, for every declaration whose extras_require requirements are
-   glued safely (the decidable guard [decl_ok_b] of model/HarvestC12.v, computed by the extracted
-   model for every T2 case: canonical heads, markers that re-parse to themselves and have no
-   top-level `or`, keys that are a plain extra name or ":marker").  Equality of the whole
-   result, failures included.  The unguarded statement is false: see the two _refuted below. *)
+(* (M) harvest = the declaration, for every declaration inside the decidable guard [decl_ok_b] of
+   model/HarvestC12.v (computed by the extracted model for every T2 case): canonical heads, own
+   markers that re-parse to themselves, key names without quote/back-slash/control characters,
+   environment markers that parse.  Markers with `or`, keys "extra", ":marker" AND "extra:marker" are
+   all inside.  Equality of the whole result, failures included. *)
 Theorem C12_harvest_exact_partial :
   forall d, decl_ok_b d = true -> harvest d = meta_of_res d.
 Proof. exact harvest_exact_guarded. Qed.
 Print Assumptions C12_harvest_exact_partial.
 
-(* re-parsing "<text1> and <text2>" is the FLAT concatenation of the two parses - the reason
-   why the guard needs "no top-level or" *)
+(* re-parsing "<text1> and <text2>" is the FLAT concatenation of the two parses - which is why the
+   code must (and now does) parenthesise what it glues; and a parenthesised text is a group *)
 Theorem C12_glued_text_reparses_flat :
   forall A B la lb,
   parse_marker_text A = POk la -> parse_marker_text B = POk lb ->
@@ -29,41 +29,24 @@ Theorem C12_glued_text_reparses_flat :
 Proof. exact pmt_glue. Qed.
 Print Assumptions C12_glued_text_reparses_flat.
 
+Theorem C12_parenthesised_text_is_a_group :
+  forall A la, parse_marker_text A = POk la -> parse_marker_text ("(" ++ A ++ ")") = POk (MOne (MGroup la)).
+Proof. exact pmt_paren. Qed.
+Print Assumptions C12_parenthesised_text_is_a_group.
+
 (* out-of-fuel is never the answer of the marker parser *)
 Theorem C12_parser_fuel_enough : forall s, parse_marker_text s <> PFuel.
 Proof. exact parser_fuel_enough. Qed.
 Print Assumptions C12_parser_fuel_enough.
 
-(* the declared composition (own marker, key's environment marker, key's extra) MEANS the
-   conjunction, for all markers - this is what makes [meta_of_res] "the declaration" *)
+(* the declared marker (own marker, key's environment marker, key's extra) MEANS the conjunction,
+   for all markers - this is what makes [meta_of_res] "the declaration" *)
 Theorem C12_declared_marker_is_conjunction :
-  forall env own envm e,
-  opt_eval env (conj (conj own envm) (Some (extra_atom e)))
-  = opt_eval env own && opt_eval env envm && extra_is env e.
+  forall env own envm x,
+  opt_eval env (declared_marker own envm x)
+  = opt_eval env own && opt_eval env envm && (String.eqb x "" || extra_is env x).
 Proof. exact declared_marker_is_conjunction. Qed.
 Print Assumptions C12_declared_marker_is_conjunction.
-
-Theorem C12_or_marker_refuted :
-  exists d rc rd lc ld env,
-    harvest d = HOk (mkMeta (Some "foo") (Some (mkV 0%N [1%N; 0%N] None None None [])) [rc])
-    /\ meta_of_res d = HOk (mkMeta (Some "foo") (Some (mkV 0%N [1%N; 0%N] None None None [])) [rd])
-    /\ rc <> rd
-    /\ parse_req_text rc = ROk (mkReq "d" (Some lc))
-    /\ parse_req_text rd = ROk (mkReq "d" (Some ld))
-    /\ extra_is env "dev" = false
-    /\ eval env lc = true
-    /\ eval env ld = false.
-Proof. exact or_marker_refuted. Qed.
-Print Assumptions C12_or_marker_refuted.
-
-Theorem C12_extra_colon_key_refuted :
-  exists d rc rd,
-    harvest d = HOk (mkMeta (Some "foo") (Some (mkV 0%N [1%N; 0%N] None None None [])) [rc])
-    /\ meta_of_res d = HOk (mkMeta (Some "foo") (Some (mkV 0%N [1%N; 0%N] None None None [])) [rd])
-    /\ rc = "f; extra == ""tst:sys-platform=='linux'"""
-    /\ rd = "f; sys_platform == ""linux"" and extra == ""tst""".
-Proof. exact extra_colon_key_refuted. Qed.
-Print Assumptions C12_extra_colon_key_refuted.
 
 Theorem C12_dotdot_spelling_refuted :
   exists pr p,
@@ -73,13 +56,15 @@ Theorem C12_dotdot_spelling_refuted :
 Proof. exact dotdot_spelling_refuted. Qed.
 Print Assumptions C12_dotdot_spelling_refuted.
 
-Theorem C12_cfg_only_refuted :
-  exists pr,
-    exists_ KDir pr (fake_root KDir "demo-1.0") (start_cwd KDir (fake_root KDir "demo-1.0") (p_lead pr) false) "setup.cfg" = Some true
-    /\ exists_ KTar pr (fake_root KTar "demo-1.0") (start_cwd KTar (fake_root KTar "demo-1.0") (p_lead pr) false) "setup.cfg" = Some false
-    /\ exists_ KZip pr (fake_root KZip "demo-1.0") (start_cwd KZip (fake_root KZip "demo-1.0") (p_lead pr) false) "setup.cfg" = Some false.
-Proof. exact cfg_only_refuted. Qed.
-Print Assumptions C12_cfg_only_refuted.
+(* setup.cfg-only projects (no setup.py): the setup.cfg the code located is found again from the cwd it
+   sets up, in all three packagings, for every project *)
+Theorem C12_cfg_only_found :
+  forall fs lead td zt zd base k c,
+  wf_files fs -> plain_comp lead -> plain_comp base -> lookup "setup.cfg" fs = Some c ->
+  exists_ k (mkProject fs lead td zt zd) (fake_root k base)
+          (start_cwd k (fake_root k base) lead false) "setup.cfg" = Some true.
+Proof. exact cfg_only_found. Qed.
+Print Assumptions C12_cfg_only_found.
 
 Theorem C12_route_independent_partial :
   forall lay k1 k2, pyproject lay <> PProject -> route_of k1 lay = route_of k2 lay.
@@ -186,3 +171,9 @@ Theorem C12_failure_is_local :
   o_failed (fst (analyse st p)) = true -> snd (analyse st p) = st.
 Proof. exact failure_is_local. Qed.
 Print Assumptions C12_failure_is_local.
+
+(* a failing PEP 517 hook (or setup.py) is a metadata failure of that project, never a foreign exception *)
+Theorem C12_failure_is_metadata_failure :
+  forall st p, o_escaped (fst (analyse st p)) = false.
+Proof. exact failure_is_metadata_failure. Qed.
+Print Assumptions C12_failure_is_metadata_failure.
